@@ -32,8 +32,9 @@
 (*  (b) "and never wins over an honest remote answering the same request"  *)
 (*        GetDone: the local cluster said 404 and some remote answered     *)
 (*        "match" before the client was answered => ok (whatever the other *)
-(*        remotes answered, in whatever order) - unless the client itself  *)
-(*        has cancelled the request                                        *)
+(*        remotes answered with a manifest or 404, in whatever order) -    *)
+(*        unless the client itself has cancelled the request or some       *)
+(*        remote failed with 5xx, hangs or has not answered yet (Settled)  *)
 (*  (c) "the manifest relayed from a remote cluster differs from what that *)
 (*      cluster sent only in that each permission hint ... has become +R"  *)
 (*        GetDone: ok => rel[b+1] for a backend b that answered with a     *)
@@ -52,41 +53,51 @@ EXTENDS Integers, Sequences, FiniteSets
 
 VARIABLES cfg,    \* [n : 0..4, mode : {"pdh","uuid"}]
           ans,    \* backend -> "none" | kind of the answer it gave before GetDone
+          asked,  \* backend -> a request has arrived there
           gaveup, \* the client has cancelled its request
           done    \* "no" | "ok" | "err"
 
-cvars == <<cfg, ans, gaveup, done>>
+cvars == <<cfg, ans, asked, gaveup, done>>
 
 Backends == 0 .. 4
 Kinds == {"match", "mismatch", "s404", "s5xx", "cancelled"}
 
 CInit(c) == /\ cfg = c
             /\ ans = [b \in Backends |-> "none"]
+            /\ asked = [b \in Backends |-> FALSE]
             /\ gaveup = FALSE
             /\ done = "no"
 
 Ask(b) == /\ b \in 0 .. cfg.n
-          /\ UNCHANGED cvars
+          /\ asked' = [asked EXCEPT ![b] = TRUE]
+          /\ UNCHANGED <<cfg, ans, gaveup, done>>
 
 Answer(b, k) ==
     /\ b \in 0 .. cfg.n /\ k \in Kinds
     /\ ans' = IF done = "no" THEN [ans EXCEPT ![b] = k] ELSE ans
-    /\ UNCHANGED <<cfg, gaveup, done>>
+    /\ UNCHANGED <<cfg, asked, gaveup, done>>
 
 \* The client cancels its request.  From then on nothing obliges the request to succeed (clause (b) is
 \* void: an implementation may return the cancellation at once); what it may hand over stays restricted.
-ClientCancel == gaveup' = TRUE /\ UNCHANGED <<cfg, ans, done>>
+ClientCancel == gaveup' = TRUE /\ UNCHANGED <<cfg, ans, asked, done>>
 
 Sent(b) == IF cfg.mode = "pdh" THEN ans[b] = "match" ELSE ans[b] \in {"match", "mismatch"}
+
+\* every remote that was asked has answered, and with a collection or a plain "not found": nothing
+\* but manifests to choose from.  A remote that failed (5xx), hangs or has not answered yet leaves an
+\* implementation free to give up (fail fast, per-remote timeout): then (b) obliges nothing.
+Settled == \A b \in 1 .. cfg.n : asked[b] => ans[b] \in {"match", "mismatch", "s404"}
 
 GetDone(ok, pdhOK, rel) ==
     /\ done = "no"
     /\ ok => ( \/ (\E b \in 1 .. cfg.n :                                   \* (a), (c): from a remote
                      Sent(b) /\ rel[b + 1] /\ ((cfg.mode = "pdh") => pdhOK))
-               \/ ans[0] \in {"match", "mismatch"} )   \* the local cluster returned a copy: statement silent
-    /\ (~gaveup /\ cfg.mode = "pdh" /\ ans[0] = "s404" /\ \E b \in 1 .. cfg.n : ans[b] = "match") => ok   \* (b)
+               \/ (ans[0] \in {"match", "mismatch"} /\ (rel[1] \/ pdhOK)) )   \* the local cluster returned a copy:
+                                      \* what is handed over is that copy as it is, or at least hashes right
+    /\ (~gaveup /\ cfg.mode = "pdh" /\ ans[0] = "s404" /\ Settled
+           /\ \E b \in 1 .. cfg.n : ans[b] = "match") => ok                                   \* (b)
     /\ done' = IF ok THEN "ok" ELSE "err"
-    /\ UNCHANGED <<cfg, ans, gaveup>>
+    /\ UNCHANGED <<cfg, ans, asked, gaveup>>
 
 TypeOK == done \in {"no", "ok", "err"} /\ \A b \in Backends : ans[b] \in Kinds \cup {"none"}
 =============================================================================
